@@ -165,7 +165,8 @@ func paren(p prec, e Expr) string {
 func (b *BadNode) SQL() string {
 	var sql string
 	for _, tok := range b.Tokens {
-		if sql != "" && len(tok.Space) > 0 {
+		// Tokens that were separated by whitespace or only by a comment must not be glued together.
+		if sql != "" && (len(tok.Space) > 0 || len(tok.Comments) > 0) {
 			sql += " "
 		}
 		sql += tok.Raw
